@@ -272,9 +272,9 @@ theorem dl_runCb (s : Stack) (cb : Cb) (hd : DL s) : DL (s.runCb cb) := by
     · split
       · exact hd
       · split
-        · exact dl_sub (subT_of_svcT ((svcT_stepOffer _ _ _ _).trans (svcT_cancelTimer_sleep _ _))) hd
-        · exact dl_sub (subT_of_svcT ((svcT_stepFind _ _ _).trans (svcT_cancelTimer_sleep _ _))) hd
-        · exact dl_sub (subT_of_svcT ((svcT_stepSubscribe _ _ _).trans (svcT_cancelTimer_sleep _ _))) hd
+        · exact dl_sub (subT_of_svcT ((svcT_stepOffer _ _ _ _).trans (svcT_cancelTimer_sleep _ _ _))) hd
+        · exact dl_sub (subT_of_svcT ((svcT_stepFind _ _ _).trans (svcT_cancelTimer_sleep _ _ _))) hd
+        · exact dl_sub (subT_of_svcT ((svcT_stepSubscribe _ _ _).trans (svcT_cancelTimer_sleep _ _ _))) hd
 
 theorem inv3_step (s s' : Stack) (e : Event) (h : s.step e = some s') (hi : Inv3 s) : Inv3 s' := by
   refine ⟨inv2_step s s' e h hi.1, ?_⟩
